@@ -897,7 +897,7 @@ func stringOperands(v ssa.Value, depth int) []ssa.Value {
 			return out
 		}
 		f := staticCallee(&x.Call)
-		if isFn(f, "fmt", "Sprintf") || isFn(f, "fmt", "Sprint") || isFn(f, "fmt", "Sprintln") || isFn(f, "fmt", "Appendf") || isFn(f, "fmt", "Append") || isFn(f, "fmt", "Appendln") {
+		if isFn(f, "fmt", "Sprintf") || isFn(f, "fmt", "Sprint") || isFn(f, "fmt", "Sprintln") || isFn(f, "fmt", "Appendf") || isFn(f, "fmt", "Append") || isFn(f, "fmt", "Appendln") || isConcatHelper(staticFn(&x.Call)) {
 			var out []ssa.Value
 			for _, a := range x.Call.Args {
 				if sl, ok := a.(*ssa.Slice); ok {
@@ -1009,6 +1009,14 @@ func (c *Ctx) RuleRxRebuild() *Result {
 					// a string-building helper of the repository (returns the text): the group, or the
 					// text built so far, arrives in its parameter; only what the helper returns counts
 					sf := staticFn(&x.Call)
+					if isConcatHelper(sf) {
+						// joins its arguments in order, like fmt.Sprint without separators
+						if !climb(x, depth+1) {
+							roots[x] = true
+						}
+						found = true
+						break
+					}
 					if sf == nil || !c.P.IsRepoFn(sf) || len(sf.Blocks) == 0 || sf == s.fn || sf.Signature.Results().Len() != 1 || !isTextType(sf.Signature.Results().At(0).Type()) {
 						break
 					}
@@ -1059,7 +1067,7 @@ func (c *Ctx) RuleRxRebuild() *Result {
 									for _, r3 := range referrers(sl) {
 										if call, ok := r3.(*ssa.Call); ok {
 											f := staticCallee(&call.Call)
-											if isFn(f, "fmt", "Sprintf") || isFn(f, "fmt", "Sprint") || isFn(f, "fmt", "Sprintln") || isFn(f, "fmt", "Appendf") || isFn(f, "fmt", "Append") || isFn(f, "fmt", "Appendln") {
+											if isFn(f, "fmt", "Sprintf") || isFn(f, "fmt", "Sprint") || isFn(f, "fmt", "Sprintln") || isFn(f, "fmt", "Appendf") || isFn(f, "fmt", "Append") || isFn(f, "fmt", "Appendln") || isConcatHelper(staticFn(&call.Call)) {
 												if !climb(call, depth+1) {
 													roots[call] = true
 												}
@@ -1418,4 +1426,96 @@ func hasLazyAny(re *syntax.Regexp) bool {
 		}
 	}
 	return false
+}
+
+// isConcatHelper: a function of the repository that returns the concatenation
+// of its parameters in parameter order and nothing else: every call in it is
+// len / cap / make / append / copy or a write to a builder, every parameter of
+// text type is appended exactly in one place, the places follow the parameter
+// order, and a variadic parameter is appended element by element in a range
+// loop. Such a helper is read like fmt.Sprint without separators.
+func isConcatHelper(fn *ssa.Function) bool {
+	if fn == nil || len(fn.Blocks) == 0 || fn.Signature.Results().Len() != 1 || !isTextType(fn.Signature.Results().At(0).Type()) || !load.InModule(load.FnPkgPath(fn)) {
+		return false
+	}
+	if len(fn.Params) == 0 {
+		return false
+	}
+	ok := true
+	var emits []ssa.Instruction // one per parameter, in parameter order
+	allInstrs(fn, func(in ssa.Instruction) {
+		cc := callCommon(in)
+		if cc == nil {
+			return
+		}
+		if bi, isB := cc.Value.(*ssa.Builtin); isB {
+			switch bi.Name() {
+			case "len", "cap", "append", "copy":
+				return
+			}
+		}
+		if f := staticCallee(cc); f != nil && (recvNamed(f) == "Builder" || recvNamed(f) == "Buffer") {
+			return
+		}
+		ok = false
+	})
+	if !ok {
+		return false
+	}
+	for _, p := range fn.Params {
+		var emit ssa.Instruction
+		n := 0
+		isAppendOf := func(v ssa.Value) {
+			for _, r := range referrers(v) {
+				call, isCall := r.(*ssa.Call)
+				if !isCall {
+					continue
+				}
+				if bi, isB := call.Call.Value.(*ssa.Builtin); isB && bi.Name() == "append" && len(call.Call.Args) == 2 && call.Call.Args[1] == v {
+					emit = call
+					n++
+				}
+				if f := staticCallee(&call.Call); f != nil && (f.Name() == "WriteString" || f.Name() == "Write") && len(call.Call.Args) == 2 && call.Call.Args[1] == v {
+					emit = call
+					n++
+				}
+			}
+		}
+		if isTextType(p.Type()) {
+			isAppendOf(p)
+			for _, r := range referrers(p) {
+				if cv, isConv := r.(*ssa.Convert); isConv {
+					isAppendOf(cv)
+				}
+			}
+		} else if st, isSlice := p.Type().Underlying().(*types.Slice); isSlice && isTextType(st.Elem()) {
+			// range over the variadic parameter: element loads
+			for _, r := range referrers(p) {
+				if ia, isIA := r.(*ssa.IndexAddr); isIA {
+					for _, rr := range referrers(ia) {
+						if ld, isLd := rr.(*ssa.UnOp); isLd && ld.Op == token.MUL {
+							// count only appends of the element (len(part) is not an emission)
+							before := n
+							isAppendOf(ld)
+							if n == before {
+								continue
+							}
+						}
+					}
+				}
+			}
+		} else {
+			return false
+		}
+		if n != 1 || emit == nil {
+			return false
+		}
+		emits = append(emits, emit)
+	}
+	for i := 1; i < len(emits); i++ {
+		if !instrDominates(emits[i-1], emits[i]) {
+			return false
+		}
+	}
+	return true
 }
